@@ -482,6 +482,7 @@ class ZorgFileCompiler(ZorgFileListener):
                 any(
                     "::" in b.split()[0]
                     for b in bullet.split(l2_bullet_prefix)[1:]
+                    if b.split()
                 )
                 for bullet in bullets
             ):
@@ -498,6 +499,7 @@ class ZorgFileCompiler(ZorgFileListener):
                 any(
                     "::" in b.split()[0]
                     for b in bullet.split(l3_bullet_prefix)[1:]
+                    if b.split()
                 )
                 for bullet in bullets
             ):
@@ -515,10 +517,12 @@ class ZorgFileCompiler(ZorgFileListener):
 
             for bullet in bullets:
                 words = bullet.split()
-                if zdt.is_short_date_spec(words[0]):
+                if words and zdt.is_short_date_spec(words[0]):
                     words.pop(0)
-                if zdt.is_zid(words[0]):
+                if words and zdt.is_zid(words[0]):
                     words.pop(0)
+                if not words:
+                    continue
                 first_word = words.pop(0)
                 if first_word.endswith("::"):
                     key = first_word[:-2]
